@@ -163,6 +163,8 @@ def run_case(case):
   kind, arg = case['fault']
   if kind in ('ctor', 'td_raise', 'td_hang', 'td_block'):
     FAULTS[kind] = arg
+  if kind == 'td_hang+ctor':      # two faults in one run: the tearDown of arg[0] hangs, the constructor of arg[1] fails
+    FAULTS['td_hang'], FAULTS['ctor'] = arg[0], arg[1]
   RELEASE[0] = threading.Event()
   DONE[0] = threading.Event()
   holder = {}
@@ -202,7 +204,7 @@ def run_case(case):
   if kind == 'phase_sigint':
     FAULTS['td_slow'] = True
     conf.load(cancel_timeout_s=0.02)
-  if kind in ('td_hang', 'td_block'):
+  if kind in ('td_hang', 'td_block', 'td_hang+ctor'):
     conf.load(plug_teardown_timeout_s=0.03)
   try:
     try:
@@ -213,7 +215,7 @@ def run_case(case):
     RELEASE[0].set()
     if kind == 'td_block' and any(e[0] == 'teardown' and e[1] == arg for e in list(LOG)):
       DONE[0].wait(5.0)
-    if kind in ('td_hang', 'td_block', 'phase_sigint'):
+    if kind in ('td_hang', 'td_block', 'phase_sigint', 'td_hang+ctor'):
       conf.reset()
   h.Test.HANDLED_SIGINT_ONCE = False
   return {'res': res, 'log': list(LOG)}
@@ -224,6 +226,8 @@ def expected_outcome(case):
   ts = TEST_STARTS[case['test_start']]
   needed_ts = {it[1] for it in ts} if isinstance(ts, list) else set()
   needed_all = {it[1] for r in case['phases'] for it in REQUESTS[r]}
+  if kind == 'td_hang+ctor':
+    kind, arg = 'ctor', arg[1]
   if kind == 'ctor':
     if arg in needed_ts or arg in needed_all:
       return 'ERROR'
@@ -316,6 +320,7 @@ def cases(tier):
   nph = 2 if tier == 'quick' else 3
   faults = [('none', None)]
   faults += [('ctor', l) for l in 'ABC'] + [('td_raise', l) for l in 'ABC'] + [('td_hang', l) for l in 'AB'] + [('td_block', 'A')]
+  faults += [('td_hang+ctor', 'AB'), ('td_hang+ctor', 'AC'), ('td_hang+ctor', 'BA'), ('td_hang+ctor', 'CA')]
   faults += [('ts_raise', None), ('ts_stop', None), ('ts_abort', None)]
   for j in range(nph):
     faults += [('phase_raise', j), ('phase_stop', j), ('phase_hang', j), ('phase_abort', j)]
